@@ -17,6 +17,7 @@
 -/
 import TshVerif.Lemmas.ParserPlacedProg
 import TshVerif.Lemmas.ParserUseProg
+import TshVerif.Lemmas.ParserDefs
 import TshVerif.Props.C06Sem
 import TshVerif.Lemmas.BatchTotal
 namespace Tsh.C07
@@ -210,6 +211,38 @@ theorem parsed_statement_uses_visible_variables (Γ : List Var) (fuel : Nat) (ct
     (h : evalStatement fuel ctx s = .ok st s') : PT.useS Γ st = true :=
   (useSIH_all useIH_all fuel).statement Γ ctx hc s st s' h
 
+/-! ### redefinition: which names of a definition must be new
+
+Proved about the definition parser (`evaluateVarDefinition`, reached by `evaluateStatement` for `var …` and for `… := …`) in
+EVERY context `ctx`: whenever it returns a statement, the statement defines one variable per written name, stored under the
+name as written (under the file's prefix on the top level of an imported file) with the level's global flag, and
+  * a definition of ONE name needs that name to be new (nothing visible is found under it),
+  * a `var` definition needs ALL its names to be new,
+  * a short definition of several names needs at least one new name; a name of it that exists on the same level is assigned
+    to and keeps its type (`defFact`, third part: theorem `C06.definition_keeps_the_type_of_an_existing_variable`).
+"New" is the parser's own lookup (`isNewVar`: `findVariable` finds nothing), so the theorem says what the lookup is used for,
+not what it finds - that is the visibility theorem above and the scope skeletons. -/
+theorem definitions_need_new_names (fuel : Nat) (ctx : Ctx) (s s' : PSt) (st : Stmt)
+    (h : evalVarDefinition fuel ctx s = .ok st s') :
+    ∃ (pfx : String) (names : List Tok) (short : Bool), names ≠ [] ∧ (defVars st).length = names.length ∧
+      (∀ i (h1 : i < names.length) (h2 : i < (defVars st).length),
+        (defVars st)[i].name = (if ctx.global then prefixed pfx names[i].val else names[i].val) ∧ (defVars st)[i].global = ctx.global) ∧
+      (names.length = 1 → ∀ t ∈ names, isNewVar ctx pfx t.val = true) ∧
+      (short = false → ∀ t ∈ names, isNewVar ctx pfx t.val = true) ∧
+      (∃ t ∈ names, isNewVar ctx pfx t.val = true) := by
+  obtain ⟨pfx, names, short, h1, h2, h3, h4, h5, h6⟩ := def_varDefinition fuel ctx s st s' h
+  exact ⟨pfx, names, short, h1, h2, fun i a b => ⟨(h3 i a b).1, (h3 i a b).2.1⟩, h4, h5, h6⟩
+
+/-- **A function is defined on the top level of a file, under a name no visible function has**: whenever the function-definition
+    parser returns a statement, in any context, the context is the global scope (`program` on top of the scope stack) and the
+    lookup `findFunction` finds nothing under the written name (for the file's prefix); the statement is the definition under
+    the prefixed name. -/
+theorem function_definitions_need_a_new_name_on_the_top_level (fuel : Nat) (ctx : Ctx) (s s' : PSt) (st : Stmt)
+    (h : evalFunctionDefinition fuel ctx s = .ok st s') :
+    ∃ (pfx : String) (nameTok : Tok) (pub : Bool) (rets : List ValueType) (params : List Var) (body : List Stmt),
+      st = .funcDef (prefixed pfx nameTok.val) pub rets params body ∧ ctx.global = true ∧ ctx.findFunc nameTok.val pfx = none :=
+  def_functionDefinition fuel ctx s st s' h
+
 /-! non-vacuity and the excluded shape -/
 private def fsOf (src : String) : FileSys := { files := [("/v/main.tsh", src.toUTF8.toList, "h0000000")], exeDir := "/x" }
 private def accepted (src : String) : Option Program :=
@@ -260,5 +293,18 @@ private def vI (n : String) (g : Bool) : Var := ⟨n, ⟨.int, false⟩, g, fals
 #guard (accepted "func f() {\n\tprint(l)\n}\nl := 1\nf()\n").isNone
 #guard (accepted "for i := 0; i < 1; i++ {\n}\nprint(i)\n").isNone
 #guard (accepted "for i, v := range \"ab\" {\n}\nprint(v)\n").isNone
+
+-- redefinition: the model rejects what the theorem excludes and accepts what it allows
+#guard (accepted "a := 1\na := 2\n").isNone
+#guard (accepted "a := 1\nvar a int = 2\n").isNone
+#guard (accepted "a := 1\nvar a, b int = 2, 3\n").isNone
+#guard (accepted "a := 1\nvar b, a = 2, 3\n").isNone
+#guard (accepted "a := 1\nb := 2\na, b := 3, 4\n").isNone
+#guard (accepted "a := 1\na, b := 3, 4\nprint(a, b)\n").isSome
+#guard (accepted "func f(p int) {\n\tp := 1\n}\n").isNone
+#guard (accepted "g := 1\nfunc f() {\n\tg := 2\n}\n").isNone
+#guard (accepted "g := 1\nfunc f() {\n\tg, h := 2, 3\n\tprint(g, h)\n}\n").isSome
+#guard (accepted "func f() {\n}\nfunc f() {\n}\n").isNone
+#guard (accepted "func f() {\n}\nfunc g() {\n}\nf()\ng()\n").isSome
 
 end Tsh.C07
